@@ -132,10 +132,13 @@ impl Server {
     }
 
     pub fn handle_did_change_text_document(&mut self, params: DidChangeTextDocumentParams) {
-        self.database.update_document(
-            self.base_path.url_to_key(&params.text_document.uri.clone()),
-            params.content_changes.first().unwrap().text.clone(),
-        );
+        // full-text sync: every change event carries the whole text, the last one is current
+        if let Some(change) = params.content_changes.last() {
+            self.database.update_document(
+                self.base_path.url_to_key(&params.text_document.uri.clone()),
+                change.text.clone(),
+            );
+        }
     }
 
     fn handle_plus_completions(&self, params: CompletionParams) -> Vec<CompletionItem> {
